@@ -36,6 +36,7 @@ type Str struct {
 	s      string
 	b      []*Term
 	opaque bool // produced by formatting the engine does not model exactly
+	exact  int  // opaque strings: number of leading bytes of s that are exact
 }
 
 func mkStr(s string) Str { return Str{s: s} }
@@ -103,6 +104,9 @@ func strFromTerms(b []*Term) Str {
 
 func (s Str) Slice(lo, hi int) Str {
 	if s.b == nil {
+		if s.opaque && hi <= s.exact {
+			return Str{s: s.s[lo:hi]}
+		}
 		return Str{s: s.s[lo:hi], opaque: s.opaque}
 	}
 	return strFromTerms(s.b[lo:hi:hi])
@@ -121,7 +125,14 @@ func (s Str) Terms() []*Term {
 
 func strConcat(a, b Str) Str {
 	if a.opaque || b.opaque {
-		return Str{s: a.String() + b.String(), opaque: true}
+		ex := 0
+		switch {
+		case a.opaque:
+			ex = a.exact
+		case a.b == nil:
+			ex = len(a.s) + b.exact
+		}
+		return Str{s: a.String() + b.String(), opaque: true, exact: ex}
 	}
 	if a.b == nil && b.b == nil {
 		return Str{s: a.s + b.s}
